@@ -344,7 +344,7 @@ def run_case(case):
                 with OwnedRNG(random.Random(0), outcomes=script, ctx=ctx):
                     o, xp = sut.mz(q, det)
                 ro, rrnd = ref.measure(q, want)
-                ctx.fault("forced_outcome")
+                ctx.fault("forced_outcome" if det != "probabilistic" else "scripted_outcome")
                 ctx.probe("random_measurement" if rrnd else "deterministic_measurement")
                 if not rrnd and ro == 1:
                     ctx.probe("deterministic_measurement_outcome1")
@@ -398,6 +398,7 @@ def run_case(case):
                     if not rnd:
                         break
                 what = "reset"
+                ctx.fault("forced_outcome" if det != "probabilistic" else "scripted_outcome")
                 ctx.log(step, k, q, intended, st[3], bit)
             elif k == "swap":
                 if n < 2:
@@ -459,6 +460,7 @@ def run_case(case):
                 if rows_signed:
                     did["struct_signed"] += 1
                 what = "remove_entangled" if ent else "remove_unentangled"
+                ctx.fault("forced_outcome" if det != "probabilistic" else "scripted_outcome")
                 ctx.log(step, "rem", q, st[2], bit)
             elif k == "tensor":
                 if n >= NMAX - 2:
@@ -516,6 +518,7 @@ def run_case(case):
                 if rows_signed:
                     did["struct_signed"] += 1
                 what = "partial_trace"
+                ctx.fault("forced_outcome" if det != "probabilistic" else "scripted_outcome", len(drop))
                 ctx.log(step, "ptrace", keep, st[3], bits)
             else:
                 raise core.HarnessError(f"unknown step {st}")
